@@ -71,6 +71,14 @@ CHECKS = {
   "explicit-state BFS over broadcast/rebroadcast/restart/crash histories on the production runner (filter -> WAL -> publish) with a synchronous wire observer",
   "Breadth-first search over histories of conflicting broadcast requests (2 instances x 2 senders x slots x 2 signatures), rebroadcast requests, an old finality certificate (WAL purge), clean restarts, crash-restarts from the WAL image captured at the last publish and crashes in the middle of an append, on the real newRunner/BroadcastMessage/RequestRebroadcast/Stop over a real WAL directory and gossipsub topic. A pubsub default validator observes the wire synchronously inside Publish and snapshots the WAL: never two signatures per (instance, sender, round, step), never an older instance, every wire message already durable. The pure filter is additionally enumerated to depth 6/7 against a reference.",
   "no storage errors, single node per identity; inbound topic validator removed; opaque signatures; one finalize event modelled through an accessor calling the production Purge", "DESIGN §3 C12"),
+ "C16": (True, "certexmc", "model_checking",
+  "exhaustive enumeration of (store, request) pairs against the real server read by a raw wire reader, and of all responder scripts up to a depth against the real poller",
+  "Server: every store of length 0..5 (7) at first instance 0 and 5 x every first / limit / power-table combination incl. boundary and overflowing values is served by the real certexchange.Server over mocknet and read both by a raw stream reader (everything on the wire) and by the production client; the response must be the byte-exact store slice, at most limit certificates, none at or beyond the advertised pending instance, the right power table. Poller: every script of up to 2 (3) behaviours out of 12 Byzantine/honest responder behaviours x client/peer holdings: the store must only gain genuine certificates, never beyond the valid in-sequence prefix sent, NextInstance must equal the store, and honest / illegal / lagging peers must be classified as such.",
+  "mocknet; fake signing; poller driven through its public API", "DESIGN §3 C16"),
+ "C20": (True, "pollmc", "model_checking",
+  "exhaustive enumeration of per-tick production patterns on the production polling loop under a mock clock, with a reference predictor",
+  "The real Subscriber.run goroutine is driven tick by tick under a mock clock (handshake through the gauge it records right after re-arming its timer): every sequence of 3 (4) ticks over {0,1,2,5 certificates} x {local, via peer} x request time {0, 1/4, 1 interval} plus failing peers, for three (min, initial, max) settings and 1-2 peers; a polling round must report exactly the store advance, and the wait must be the predicted interval (independent predictor fed with the true advance) extended by at most the request time and half the interval; long steady / bursty / stalled runs must settle near the production period and never pin to min or max.",
+  "mocknet + mock clock; unexported run/poll reached through an injected accessor; reference predictor mirrors predictor.go", "DESIGN §3 C20"),
 }
 
 ALL = ["C%02d" % i for i in range(1, 21)]
